@@ -2,6 +2,7 @@
 //! G-wt programs, kind-breaking AST mutants, token- and byte-level mutants, corpus programs and their mutants.
 
 use super::common::*;
+use crate::gen::ast::{Program, Ty, E};
 use crate::drive::pipeline::Sources;
 use crate::gen::mutate::*;
 use crate::gen::print::{print_program, print_program_mutant};
@@ -14,6 +15,44 @@ pub struct ExploreCase {
     pub origin: String,
     /// trigger shape of the open finding "cross-module instantiation of under-constrained functions"
     pub cross_module_app: bool,
+    /// trigger shapes of open findings present in the program (see `shapes_of`); programs without an abstract
+    /// syntax (token/byte mutants, corpus) conservatively carry all of them
+    pub shapes: Vec<&'static str>,
+}
+
+pub const ALL_SHAPES: [&str; 2] = ["alias-on-cycle", "uri-kinded-declaration-on-cycle"];
+
+/// Trigger shapes of the two open findings about the recursion placeholder:
+/// * alias-on-cycle: a declaration that is a bare alias of another one (`let x = node;`) lies on a declaration cycle
+///   (the placeholder is memoised as the alias' value);
+/// * uri-kinded-declaration-on-cycle: a declaration of kind URI lies on a declaration cycle (re-entering it yields
+///   the placeholder where a URI is required).
+pub fn shapes_of(p: &Program) -> Vec<&'static str> {
+    let n = p.decls.len();
+    let adj: Vec<Vec<usize>> = p.decls.iter().map(|d| Program::mentions(&d.rhs)).collect();
+    let mut on_cycle = vec![false; n];
+    for i in 0..n {
+        let mut seen = vec![false; n];
+        let mut stack: Vec<usize> = adj[i].clone();
+        while let Some(j) = stack.pop() {
+            if j == i {
+                on_cycle[i] = true;
+                break;
+            }
+            if !seen[j] {
+                seen[j] = true;
+                stack.extend(adj[j].iter().copied());
+            }
+        }
+    }
+    let mut out = Vec::new();
+    if (0..n).any(|d| on_cycle[d] && matches!(p.decls[d].rhs.peel(), E::Var { .. })) {
+        out.push("alias-on-cycle");
+    }
+    if (0..n).any(|d| on_cycle[d] && (p.decls[d].ty == Ty::Uri || matches!(&p.decls[d].ty, Ty::Fun(_, r) if **r == Ty::Uri))) {
+        out.push("uri-kinded-declaration-on-cycle");
+    }
+    out
 }
 
 static CORPUS: OnceLock<Vec<(String, Sources)>> = OnceLock::new();
@@ -64,6 +103,7 @@ pub fn explore_case(seed: u64, salt: &str, idx: u64) -> ExploreCase {
                 sources: sources_of(&print_program(&p)),
                 origin: "wt".into(),
                 cross_module_app: false,
+                shapes: shapes_of(&p),
             }
         }
         3..=12 => {
@@ -75,6 +115,7 @@ pub fn explore_case(seed: u64, salt: &str, idx: u64) -> ExploreCase {
             }
             ExploreCase {
                 cross_module_app: has_cross_module_application(&p),
+                shapes: shapes_of(&p),
                 sources: sources_of(&print_program_mutant(&p)),
                 origin: format!("ast-mutant:{}", what.join("+")),
             }
@@ -90,6 +131,7 @@ pub fn explore_case(seed: u64, salt: &str, idx: u64) -> ExploreCase {
                 sources: src,
                 origin: "token-mutant".into(),
                 cross_module_app: p.modules.len() > 1,
+                shapes: ALL_SHAPES.to_vec(),
             }
         }
         16 => {
@@ -101,6 +143,7 @@ pub fn explore_case(seed: u64, salt: &str, idx: u64) -> ExploreCase {
                 sources: src,
                 origin: "byte-mutant".into(),
                 cross_module_app: p.modules.len() > 1,
+                shapes: ALL_SHAPES.to_vec(),
             }
         }
         17 => {
@@ -110,6 +153,7 @@ pub fn explore_case(seed: u64, salt: &str, idx: u64) -> ExploreCase {
                     sources: Sources::single(""),
                     origin: "corpus-missing".into(),
                     cross_module_app: false,
+                    shapes: ALL_SHAPES.to_vec(),
                 };
             }
             let (name, src) = &c[(idx / 20) as usize % c.len()];
@@ -117,6 +161,7 @@ pub fn explore_case(seed: u64, salt: &str, idx: u64) -> ExploreCase {
                 sources: src.clone(),
                 origin: format!("corpus:{name}"),
                 cross_module_app: src.files.len() > 1,
+                shapes: ALL_SHAPES.to_vec(),
             }
         }
         _ => {
@@ -126,6 +171,7 @@ pub fn explore_case(seed: u64, salt: &str, idx: u64) -> ExploreCase {
                     sources: Sources::single(""),
                     origin: "corpus-missing".into(),
                     cross_module_app: false,
+                    shapes: ALL_SHAPES.to_vec(),
                 };
             }
             let (_, a) = rng.pick(c).clone();
@@ -138,6 +184,7 @@ pub fn explore_case(seed: u64, salt: &str, idx: u64) -> ExploreCase {
             };
             ExploreCase {
                 cross_module_app: src.files.len() > 1,
+                shapes: ALL_SHAPES.to_vec(),
                 sources: src,
                 origin: "corpus-mutant".into(),
             }
